@@ -262,9 +262,41 @@ func (b *expandBody) expandChild(child hcl.Body, i *iteration, valueMarks cty.Va
 
 func (b *expandBody) JustAttributes() (hcl.Attributes, hcl.Diagnostics) {
 	// blocks aren't allowed in JustAttributes mode and this body can
-	// only produce blocks, so we'll just pass straight through to our
-	// underlying body here.
-	return b.original.JustAttributes()
+	// only produce blocks, so we mostly pass through to our underlying
+	// body here. However, the underlying body doesn't know which block types
+	// earlier PartialContent calls on this body have already consumed, and
+	// the attributes still need to be filtered and given access to any
+	// iteration variables just as Content and PartialContent do.
+	original := b.original
+	var diags hcl.Diagnostics
+	if len(b.hiddenBlocks) > 0 {
+		hidden := &hcl.BodySchema{}
+		for _, blockS := range b.hiddenBlocks {
+			hidden.Blocks = append(hidden.Blocks, blockS)
+		}
+		hidden.Blocks = append(hidden.Blocks, dynamicBlockHeaderSchema)
+		content, remain, _ := b.original.PartialContent(hidden)
+		for _, block := range content.Blocks {
+			if block.Type != "dynamic" || len(block.Labels) < 1 {
+				continue
+			}
+			if _, isHidden := b.hiddenBlocks[block.Labels[0]]; !isHidden {
+				// a dynamic block for a type that hasn't been consumed yet
+				// is still a block, which isn't allowed here.
+				diags = append(diags, &hcl.Diagnostic{
+					Severity: hcl.DiagError,
+					Summary:  fmt.Sprintf("Unexpected %q block", block.Labels[0]),
+					Detail:   "Blocks are not allowed here.",
+					Subject:  &block.TypeRange,
+				})
+				break
+			}
+		}
+		original = remain
+	}
+	attrs, attrDiags := original.JustAttributes()
+	diags = append(diags, attrDiags...)
+	return b.prepareAttributes(attrs), diags
 }
 
 func (b *expandBody) MissingItemRange() hcl.Range {
